@@ -22,6 +22,35 @@ class Violation(AssertionError):
     """The property is violated by the current case."""
 
 
+class CaseTimeout(Violation):
+    """A single generated case did not terminate (normal cases take
+    milliseconds to a few seconds)."""
+
+
+CASE_TIMEOUT_S = float(os.environ.get("VERIF_CASE_TIMEOUT", "90"))
+
+
+def _on_alarm(signum, frame):
+    raise CaseTimeout("the case did not terminate within %.0f s (normal "
+                      "cases take milliseconds); the code under test hangs"
+                      % CASE_TIMEOUT_S)
+
+
+class case_timer:
+    """Per-case watchdog (SIGALRM, main thread of the worker)."""
+
+    def __enter__(self):
+        import signal
+        self.old = signal.signal(signal.SIGALRM, _on_alarm)
+        signal.setitimer(signal.ITIMER_REAL, CASE_TIMEOUT_S)
+
+    def __exit__(self, *a):
+        import signal
+        signal.setitimer(signal.ITIMER_REAL, 0)
+        signal.signal(signal.SIGALRM, self.old)
+        return False
+
+
 class HarnessError(Exception):
     """The machinery itself is broken; never a verdict (exit 2)."""
 
@@ -205,7 +234,8 @@ class Ctx:
                     time.time() - state["t0"] > ctx.shrink_cap):
                 raise _Abort("shrinkcap")
             try:
-                check(ctx, case)
+                with case_timer():
+                    check(ctx, case)
             except (UnsatisfiedAssumption, _Abort):
                 raise
             except Exception as exc:   # noqa
@@ -275,7 +305,8 @@ def logged(fn):
             raise _Abort("shrinkcap")
         self.history.append([fn.__name__, to_jsonable(kw)])
         try:
-            return fn(self, **kw)
+            with case_timer():
+                return fn(self, **kw)
         except _Abort:
             raise
         except Exception as exc:  # noqa
@@ -345,8 +376,11 @@ def _run_task(args):
     ctx.nshards = nshards
     t0 = time.time()
     err = None
+    import contextlib
     try:
-        sub.run(ctx, n)
+        with open(os.devnull, "w") as devnull, \
+                contextlib.redirect_stdout(devnull):
+            sub.run(ctx, n)
     except HarnessError as exc:
         err = str(exc)
     except Exception as exc:  # noqa
@@ -406,8 +440,11 @@ def _replay(mod, path, scratch_root, known_open, quiet=False, witness_of=None):
     ctx = Ctx(mod.PROPERTY, sub.name, "quick", 0, 0, scratch, known_open,
               witness_of=witness_of)
     case = from_jsonable(rep["case"])
+    import contextlib
     try:
-        sub.check(ctx, case)
+        with open(os.devnull, "w") as devnull, \
+                contextlib.redirect_stdout(devnull):
+            sub.check(ctx, case)
     except Violation as exc:
         if not quiet:
             print("replay: %s" % exc)
@@ -458,8 +495,21 @@ def _run(mod, args, seed, known, known_open, scratch_root):
         with concurrent.futures.ProcessPoolExecutor(
                 max_workers=min(args.workers, len(tasks)),
                 mp_context=ctxmp) as ex:
-            for r in ex.map(_run_task, tasks):
-                results.append(r)
+            budget = float(os.environ.get(
+                "VERIF_RUN_BUDGET_S", "1500" if args.tier == "quick"
+                else "14400"))
+            futs = [ex.submit(_run_task, t) for t in tasks]
+            done, pending = concurrent.futures.wait(futs, timeout=budget)
+            if pending:
+                for f in pending:
+                    f.cancel()
+                for proc in list(getattr(ex, "_processes", {}).values()):
+                    proc.kill()
+                print("HARNESS ERROR: wall-clock budget of %.0f s exhausted "
+                      "(inconclusive)" % budget, file=sys.stderr)
+                os._exit(2)
+            for f in futs:
+                results.append(f.result())
     for s, n in serial:
         results.append(_run_task((mod.__name__, prop, s.name, args.tier, seed,
                                   0, n, scratch_root, known_open, 1)))
